@@ -1,4 +1,6 @@
-"""C15, part 2: the Context code shared by the workers of a multi-run call, against Model/CtxRace.v.
+"""C15, part 2: the Context code shared by the workers of a multi-run call, against Model/CtxRace.v
+(the code as repaired by /repo commit d202a14; the transition system of the code before that commit and the
+interleavings that crashed it are kept in coq/Model/CtxRacePinned*.v and replayed here as regression inputs).
 
 A *scenario* is a plugin graph (single-output plugins of one data kind over a source), a tuple of targets,
 a storage configuration, a cache temperature (cold / warm) and, per worker thread, the list of runs it loads
@@ -6,8 +8,10 @@ with `Context.get_array(run, targets)` on ONE shared context.
 
   skeleton   the top-level calls the unmodelled code (get_iter / get_components / is_stored / ...) makes into
              the modelled functions, extracted from a traced sequential run of the real code
-  model      the extracted LTS run on that skeleton under a schedule -> per-thread label traces, statuses
-  real       the line-level interleaver run on the same schedule -> per-thread label traces, outcomes
+  model      the extracted model run on that skeleton under a schedule (of whole transitions: locked sections are
+             atomic) -> per-thread label traces, statuses, plugins obtained, final cache
+  real       the line-level interleaver run on the same schedule -> per-thread label traces, outcomes; it also
+             checks the locking protocol at every labelled line
 """
 import itertools
 import json
@@ -154,7 +158,7 @@ class SkeletonTracer:
 
     def _caller_modelled(self, frame):
         f = frame.f_back
-        while f is not None and f.f_code.co_filename != self.file:
+        while f is not None and (f.f_code.co_filename != self.file or f.f_code.co_name == "wrapped"):
             f = f.f_back
         return f is not None and f.f_code.co_name in MODELLED
 
@@ -190,6 +194,8 @@ class SkeletonTracer:
                     if lab == 23 and not self.cleanup_seen:
                         self.cleanup_seen = True
                         self.items.append(("cleanup",))
+                    elif lab == 27:
+                        self.items.append(("copyreg",))
                     elif lab in (25, 26):
                         self.items.append(("regread", lab, frame.f_locals["target"]))
             elif frame.f_lineno in self.unl:
@@ -204,6 +210,11 @@ class SkeletonTracer:
                     self.items.append(("estimate", ts, nsf))
         return self.local
 
+    def finish(self):
+        """one get_array call has returned"""
+        self.items.append(("endcall",))
+        self.cleanup_seen = False
+
 
 def extract_skeleton(sc, run_id, st=None, tmpdir=None):
     """(items, labels) of one sequential get_array(run_id, targets) on a fresh (or the given) context"""
@@ -216,6 +227,7 @@ def extract_skeleton(sc, run_id, st=None, tmpdir=None):
             res = st.get_array(run_id, targets_arg(sc))
         finally:
             sys.settrace(None)
+    tr.finish()
     return tr, res, st
 
 
@@ -238,11 +250,11 @@ def set_order_table(deps, target_lists):
 
 
 # ------------------------------------------------------------------------------------------------
-# model configuration
+# model configuration (Model/CtxRace.v, the repaired code)
 # ------------------------------------------------------------------------------------------------
 
 class ModelCfg:
-    """translation of a scenario into the integer line protocol of the extracted LTS"""
+    """translation of a scenario into the integer line protocol of the extracted model"""
     def __init__(self, sc, skeleton_items, temp_name, warm_names=None):
         g = GRAPHS[sc["graph"]]
         self.names = {dt: i + 1 for i, (dt, _) in enumerate(g)}
@@ -270,7 +282,7 @@ class ModelCfg:
         t.append(len(self.so))
         for k, v in self.so.items():
             t += [len(k)] + [self.nid(x) for x in k] + [len(v)] + [self.nid(x) for x in v]
-        t.append(400)  # fuel of the macro expansion
+        t.append(MODEL_FUEL)
         g = GRAPHS[self.sc["graph"]]
         t.append(len(g))
         for dt, _ in g:
@@ -279,8 +291,7 @@ class ModelCfg:
             t.append(-1)
         else:
             t.append(len(self.warm))
-            for n in self.warm:
-                t += [self.nid(n), (100 + self.nid(n)) if n != self.temp_name else 4999]
+            t += [self.nid(n) for n in self.warm]
         t.append(len(threads_ncalls))
         for tid, ncalls in enumerate(threads_ncalls):
             its = []
@@ -307,14 +318,21 @@ class ModelCfg:
             return [5, it[1], self.nid(it[2])]
         if k == "estimate":
             return [6, len(it[1])] + [self.nid(x) for x in it[1]] + [it[2]]
+        if k == "copyreg":
+            return [7]
+        if k == "endcall":
+            return [8]
         raise ValueError(it)
 
 
+MODEL_FUEL = 40
+
+
 def parse_model_out(line):
-    """'T D n l.. T C k l n l.. G ...' -> list of (status tuple, trace)"""
+    """-> dict(threads=[dict(status, trace, steps, got)], cache, wf, gotok, weight)"""
     toks = line.split()
-    out = []
     i = 0
+    ths = []
     while i < len(toks) and toks[i] == "T":
         st = toks[i + 1]
         i += 2
@@ -326,20 +344,68 @@ def parse_model_out(line):
         n = int(toks[i])
         tr = [int(x) for x in toks[i + 1:i + 1 + n]]
         i += 1 + n
-        out.append((status, tr))
-    got = toks[i + 1:] if i < len(toks) else []
-    return out, got
+        assert toks[i] == "S"
+        n = int(toks[i + 1])
+        steps = [int(x) for x in toks[i + 2:i + 2 + n]]
+        i += 2 + n
+        assert toks[i] == "G"
+        ng = int(toks[i + 1])
+        i += 2
+        got = []
+        for _ in range(ng):
+            m = int(toks[i])
+            got.append([int(x) for x in toks[i + 1:i + 1 + m]])
+            i += 1 + m
+        ths.append(dict(status=status, trace=tr, steps=steps, got=got))
+    assert toks[i] == "C"
+    n = int(toks[i + 1])
+    if n < 0:
+        cache = None
+        i += 2
+    else:
+        cache = [int(x) for x in toks[i + 2:i + 2 + n]]
+        i += 2 + n
+    k = len(ths)
+    assert toks[i] == "W"
+    wf = [x == "1" for x in toks[i + 1:i + 1 + k]]
+    i += 1 + k
+    assert toks[i] == "X"
+    gotok = [x == "1" for x in toks[i + 1:i + 1 + k]]
+    i += 1 + k
+    assert toks[i] == "B"
+    weight = [int(x) for x in toks[i + 1:i + 1 + k]]
+    return dict(threads=ths, cache=cache, wf=wf, gotok=gotok, weight=weight)
 
 
-def run_model(mc, threads_ncalls, segs):
-    extra = [len(segs)]
-    for t, n in segs:
-        extra += [t, n]
-    line = "ctx " + mc.encode(threads_ncalls, extra)
-    out = lib.run_model("C15", [line])[0]
+def model_line(mc, threads_ncalls, mode, sched):
+    """mode 0: sched = [(tid, ntransitions)]; mode 1: sched = [tid] (thread runs through its next section)"""
+    extra = [mode, len(sched)]
+    for x in sched:
+        extra += list(x) if mode == 0 else [x]
+    return "fctx " + mc.encode(threads_ncalls, extra)
+
+
+def run_model(mc, threads_ncalls, mode, sched):
+    out = lib.run_model("C15", [model_line(mc, threads_ncalls, mode, sched)])[0]
     if out.startswith("EXC") or out in ("BAD", "UNKNOWN"):
         raise RuntimeError("model driver: " + out)
     return parse_model_out(out)
+
+
+def label_budgets(mres, sched):
+    """translate a schedule in model transitions into one in labelled lines, using the number of labelled
+    lines each transition executed in the model run"""
+    pos = [0] * len(mres["threads"])
+    out = []
+    for tid, n in sched:
+        if tid >= len(pos):
+            continue
+        steps = mres["threads"][tid]["steps"]
+        k = sum(steps[pos[tid]:pos[tid] + n])
+        pos[tid] += n
+        if k > 0:
+            out.append((tid, k))
+    return out
 
 
 def classify_exc(e):
@@ -355,96 +421,7 @@ def classify_exc(e):
 
 
 # ------------------------------------------------------------------------------------------------
-# Coq text of a model configuration (witness file generation and kernel cross-check)
-# ------------------------------------------------------------------------------------------------
-
-def _zl(xs):
-    return "[" + "; ".join(str(int(x)) for x in xs) + "]"
-
-
-def coq_item(mc, it, cls):
-    k = it[0]
-    if k == "getplugins":
-        return "MGetPlugins %s" % _zl(mc.nid(x) for x in it[1])
-    if k == "keyfor":
-        return "MKeyFor %d" % mc.nid(it[1])
-    if k == "register":
-        return "HRegGet %d %d" % (mc.nid(it[1]), cls)
-    if k == "cleanup":
-        return "HSnap"
-    if k == "regread":
-        return "HRead %d %d" % (it[1], mc.nid(it[2]))
-    if k == "estimate":
-        return "MEstimate %s %d%%nat" % (_zl(mc.nid(x) for x in it[1]), it[2])
-    raise ValueError(it)
-
-
-def coq_terms(mc, threads_ncalls):
-    """(cfgm, shared, progs) as Coq terms, the same data `encode` sends to the driver"""
-    deps = "[" + "; ".join("(%d, %s)" % (mc.nid(n), _zl(mc.nid(x) for x in d)) for n, d in mc.deps.items()) + "]"
-    so = "[" + "; ".join("(%s, %s)" % (_zl(mc.nid(x) for x in k), _zl(mc.nid(x) for x in v))
-                         for k, v in mc.so.items()) + "]"
-    cfg = "(mkcfgm %s %s 400%%nat)" % (deps, so)
-    g = GRAPHS[mc.sc["graph"]]
-    reg = "[" + "; ".join("(%d, %d)" % (mc.nid(dt), 100 + mc.nid(dt)) for dt, _ in g) + "]"
-    if mc.warm is None:
-        sh = "(mkshared (mkdict %s 0%%nat) None [])" % reg
-    else:
-        items = "[" + "; ".join("(%d, %d)" % (mc.nid(n), (100 + mc.nid(n)) if n != mc.temp_name else 4999)
-                                for n in mc.warm) + "]"
-        sh = "(mkshared (mkdict %s 0%%nat) (Some 0%%nat) [mkdict %s 0%%nat])" % (reg, items)
-    progs = []
-    for tid, ncalls in enumerate(threads_ncalls):
-        its = []
-        for call in range(ncalls):
-            its += [coq_item(mc, it, 5000 + 10 * tid + call) for it in mc.items]
-        progs.append("[" + "; ".join(its) + "]")
-    return cfg, sh, "[" + ";\n   ".join(progs) + "]"
-
-
-WITNESSES = {
-    # name: (scenario, warm, threads_ncalls, run-length schedule, expected (tid, kind, label))
-    "wa1": (dict(graph="flat", targets=("src", "aa"), storage="none"), False, [1, 1], [(1, 45)], (1, K_ITER, 20)),
-    "wa2": (dict(graph="flat", targets=("src", "aa"), storage="none"), False, [1, 1], [(1, 44)], (1, K_KEY, 25)),
-    "wb1": (dict(graph="flat", targets=("aa",), storage="none"), False, [1, 1], [(0, 19), (1, 30)], (1, K_ITER, 15)),
-    "wb2": (dict(graph="flat", targets=("aa",), storage="none"), False, [1, 1], [(0, 17), (1, 31), (0, 1), (1, 10)],
-            (1, K_KEY, 15)),
-}
-
-
-def build_mc(sc, warm):
-    """skeleton + model configuration of a scenario from a traced sequential run of the real code"""
-    tr, res, st0 = extract_skeleton(sc, "001", tmpdir=(new_tmpdir() if sc["storage"] == "dir" else None))
-    temp = [i[1] for i in tr.items if i[0] == "register"]
-    temp = temp[0] if temp else None
-    cached = None
-    if warm:
-        cached = list(st0._fixed_plugin_cache[st0._context_hash()].keys())
-    return ModelCfg(sc, tr.items, temp, cached), tr
-
-
-def gen_witness_file():
-    out = ["(* GENERATED by `python -m harness.props.c15_ctx gen-witness` from traced sequential runs of the real",
-           "   strax code (skeletons of Context.get_array); the check re-derives these terms on every run and",
-           "   compares them with this file (kernel cross-check).  Concrete refutations of ctx_race_free. *)",
-           "From SV Require Import Base.Prelude Model.CtxRace.", ""]
-    for name, (sc, warm, ncalls, segs, exp) in WITNESSES.items():
-        mc, _ = build_mc(sc, warm)
-        cfg, sh, progs = coq_terms(mc, ncalls)
-        out.append("(* %s: graph %s, targets %s, %s cache, %d worker threads x 1 run *)"
-                   % (name, GRAPHS[sc["graph"]], sc["targets"], "warm" if warm else "cold", len(ncalls)))
-        out.append("Definition %s_cfg : cfgm := %s." % (name, cfg))
-        out.append("Definition %s_sh : shared := %s." % (name, sh))
-        out.append("Definition %s_progs : list (list task) :=\n  %s." % (name, progs))
-        out.append("Definition %s_sched : list nat := rle %s."
-                   % (name, "[" + "; ".join("(%d%%nat, %d%%nat)" % s for s in segs) + "]"))
-        out.append("")
-    return "\n".join(out)
-
-
-
-# ------------------------------------------------------------------------------------------------
-# running a scenario on the real code under the interleaver, and on the model
+# running a scenario on the real code under the interleaver
 # ------------------------------------------------------------------------------------------------
 
 _TMP_ROOT = os.path.join(lib.BUILD, "tmp_c15_%d" % os.getpid())
@@ -462,7 +439,7 @@ def cleanup_tmp():
 
 
 def thread_runs(threads_ncalls):
-    """run ids per thread: thread i loads runs 0i1, 0i2, ..."""
+    """run ids per thread: thread i loads runs <i+1><1>, <i+1><2>, ..."""
     return [["%d%d" % (tid + 1, call + 1) for call in range(n)] for tid, n in enumerate(threads_ncalls)]
 
 
@@ -483,8 +460,13 @@ def same_array(a, b):
     return a.dtype == b.dtype and len(a) == len(b) and all(np.array_equal(a[n], b[n]) for n in a.dtype.names)
 
 
-def run_real(sc, warm, threads_ncalls, sched):
-    """-> per thread dict(status, trace, exc, data_ok, unlabelled), and the Interleaver"""
+CACHE_LABELS = {2, 4, 5, 6, 9, 10, 11, 12, 13, 14, 15, 21, 22}
+REG_WRITE_LABELS = {17, 19, 24}
+
+
+def run_real(sc, warm, threads_ncalls, segs):
+    """segs: [(tid, number of labelled lines)].  -> per thread dict(status, trace, exc, data_ok, unlabelled,
+    protocol), plus the order in which threads entered locked sections"""
     from harness.props.c15 import quiet
     tmpd = new_tmpdir() if sc["storage"] == "dir" else None
     with quiet():
@@ -492,6 +474,7 @@ def run_real(sc, warm, threads_ncalls, sched):
         if warm:
             st.get_array("001", targets_arg(sc))
     runs = thread_runs(threads_ncalls)
+    shared_reg = st._plugin_class_registry
 
     def mk(rs):
         def f():
@@ -499,8 +482,19 @@ def run_real(sc, warm, threads_ncalls, sched):
         return f
 
     I = il.Interleaver()
+
+    def on_hit(w, lab, frame):
+        if lab in CACHE_LABELS:
+            if not I.holds_lock(w):
+                w.protocol.append(("cache statement executed without the plugin-resolution lock", lab))
+        elif lab in REG_WRITE_LABELS:
+            slf = frame.f_locals.get("self")
+            if slf is not None and slf._plugin_class_registry is shared_reg:
+                w.protocol.append(("the registry of the shared context is written", lab))
+
+    I.on_hit = on_hit
     with quiet():
-        ws = I.run([mk(rs) for rs in runs], sched)
+        ws = I.run([mk(rs) for rs in runs], segs)
     out = []
     for w, rs in zip(ws, runs):
         status = classify_exc(w.exc)
@@ -508,83 +502,87 @@ def run_real(sc, warm, threads_ncalls, sched):
         if w.exc is None:
             ok = all(same_array(a, oracle(sc, r)) for a, r in zip(w.result, rs))
         out.append(dict(status=status, trace=w.trace, exc=w.exc, data_ok=ok, unlabelled=w.unlabelled,
-                        msg=(repr(w.exc)[:160] if w.exc is not None else "")))
-    return out, st
+                        protocol=w.protocol, msg=(repr(w.exc)[:160] if w.exc is not None else "")))
+    cache_keys = None
+    if st._fixed_plugin_cache is not None:
+        try:
+            cache_keys = list(st._fixed_plugin_cache[st._context_hash()].keys())
+        except Exception:  # noqa
+            cache_keys = ["?"]
+    return out, dict(lock_order=list(I.lock_log), cache_keys=cache_keys, registry=list(shared_reg.keys()),
+                     has_lock=I.n_locks > 0)
 
 
-def family_of(sc, warm, mc, th):
-    """finding family of a crash of the real code: 'temp_plugin' (D7a), 'cache_fill' (D7b) or None (new)"""
-    st = th["status"]
-    if st[0] != "C":
-        return None
-    last = th["trace"][-1] if th["trace"] else None
-    msg = str(th["exc"])
-    multi = len(sc["targets"]) > 1
-    temp = mc.temp_name or "\0"
-    if st[1] == K_ITER:
-        if last in (1, 3, 20) and multi:
-            return "temp_plugin"
-        if last == 15 and not warm:
-            return "cache_fill"
-        return None
-    if st[1] == K_KEY:
-        if temp in msg and multi and last in (3, 7, 8, 24, 25, 26):
-            return "temp_plugin"
-        if temp not in msg and not warm and last in (3, 15):
-            return "cache_fill"
-    return None
+def compare(mres, rres, info, mc):
+    """model vs real for one execution; returns (agree, text)"""
+    for tid, (m, r) in enumerate(zip(mres["threads"], rres)):
+        ms, rs = m["status"], r["status"]
+        if ms[0] == "D":
+            if rs[0] != "D":
+                return False, "thread %d: model finishes, real %s %s" % (tid, rs, r["msg"])
+        elif ms[0] == "C":
+            if rs[0] != "C" or rs[1] != ms[1]:
+                return False, "thread %d: model fails %s, real %s %s" % (tid, ms, rs, r["msg"])
+        else:
+            return False, "thread %d: model status %s" % (tid, ms)
+        if m["trace"] != r["trace"]:
+            a, b = m["trace"], r["trace"]
+            d = next((i for i, (x, y) in enumerate(zip(a, b)) if x != y), min(len(a), len(b)))
+            return False, "thread %d: label traces differ at step %d (model %s / real %s)" % (
+                tid, d, a[max(0, d - 3):d + 3], b[max(0, d - 3):d + 3])
+        if r["unlabelled"]:
+            return False, "thread %d executed unlabelled shared-map lines %s" % (tid, r["unlabelled"][:3])
+        if r["protocol"]:
+            return False, "thread %d: %s (label %d)" % ((tid,) + r["protocol"][0])
+    if mres["cache"] is not None and info["cache_keys"] is not None:
+        inv = {v: k for k, v in mc.names.items()}
+        mk = [inv.get(x, "?") for x in mres["cache"]]
+        if mk != info["cache_keys"]:
+            return False, "plugin cache after the calls: model %s / real %s" % (mk, info["cache_keys"])
+    if set(info["registry"]) != {dt for dt, _ in GRAPHS[mc.sc["graph"]]}:
+        return False, "the registry of the shared context changed: %s" % info["registry"]
+    return True, "agree"
 
 
-FINDING_WHAT = {
-    "temp_plugin": ("Context is not thread-safe for several same-kind targets (D7): get_iter registers a temporary "
-                    "merge plugin in the shared _plugin_class_registry and deletes every '_temp*' key afterwards; "
-                    "two worker threads of one multi-run call (2 runs, 2 targets, 2 workers) interleaved as in the "
-                    "witness make one worker fail with 'RuntimeError: dictionary changed size during iteration' "
-                    "(Context.register / _context_hash / _get_plugins iterate the registry) or KeyError on the "
-                    "deleted temporary plugin"),
-    "cache_fill": ("Context plugin cache is not thread-safe on a cold cache, even for ONE target (D7b): "
-                   "__get_requested_plugins_from_cache iterates the shared _fixed_plugin_cache while another worker's "
-                   "_plugins_to_cache inserts into it ('dictionary changed size during iteration'), and two workers "
-                   "that both see the cache as None replace each other's cache (KeyError on a plugin just reported "
-                   "as cached)"),
+# ------------------------------------------------------------------------------------------------
+# the interleavings that crashed the code before commit d202a14 (Model/CtxRacePinnedWitness.v)
+# ------------------------------------------------------------------------------------------------
+
+PINNED_WITNESSES = {
+    # name: (scenario, warm, threads_ncalls, schedule in labelled lines, (tid, kind, label) on the old code)
+    "wa1": (dict(graph="flat", targets=("src", "aa"), storage="none"), False, [1, 1], [(1, 45)], (1, K_ITER, 20)),
+    "wa2": (dict(graph="flat", targets=("src", "aa"), storage="none"), False, [1, 1], [(1, 44)], (1, K_KEY, 25)),
+    "wb1": (dict(graph="flat", targets=("aa",), storage="none"), False, [1, 1], [(0, 19), (1, 30)], (1, K_ITER, 15)),
+    "wb2": (dict(graph="flat", targets=("aa",), storage="none"), False, [1, 1], [(0, 17), (1, 31), (0, 1), (1, 10)],
+            (1, K_KEY, 15)),
 }
-FINDING_WITNESS = {"temp_plugin": "wa1", "cache_fill": "wb1"}
+FINDING_WHAT = {
+    "temp_plugin": ("Context is not thread-safe for several same-kind targets (D7a): the temporary merge plugin is "
+                    "registered in / deleted from the registry other worker threads are using"),
+    "cache_fill": ("Context plugin cache is not thread-safe on a cold cache, even for ONE target (D7b): the shared "
+                   "_fixed_plugin_cache is iterated / replaced while another worker fills it"),
+}
 
 
 def witness_input(name):
-    sc, warm, ncalls, segs, exp = WITNESSES[name]
+    sc, warm, ncalls, segs, exp = PINNED_WITNESSES[name]
     return {"scenario": {"graph": sc["graph"], "targets": list(sc["targets"]), "storage": sc["storage"]},
             "cache": "warm" if warm else "cold", "threads_ncalls": ncalls, "segs": [list(s) for s in segs]}
 
 
-def compare(mres, rres):
-    """model (status, trace) per thread vs real; returns (agree, hazard, text)"""
-    hazard = any(ms[0] == "C" and ms[1] == K_HAZARD for ms, _ in mres)
-    if hazard:
-        return True, True, "hazard"
-    for tid, ((ms, mtr), r) in enumerate(zip(mres, rres)):
-        rs = r["status"]
-        if ms[0] == "D":
-            if rs[0] != "D":
-                return False, False, "thread %d: model finishes, real %s %s" % (tid, rs, r["msg"])
-        elif ms[0] == "C":
-            if rs[0] != "C" or rs[1] != ms[1]:
-                return False, False, "thread %d: model crashes %s, real %s %s" % (tid, ms, rs, r["msg"])
-        else:
-            return False, False, "thread %d: model status %s" % (tid, ms)
-        if mtr != r["trace"]:
-            d = next((i for i, (x, y) in enumerate(zip(mtr, r["trace"])) if x != y), min(len(mtr), len(r["trace"])))
-            return False, False, "thread %d: label traces differ at step %d (model %s / real %s)" % (
-                tid, d, mtr[max(0, d - 3):d + 3], r["trace"][max(0, d - 3):d + 3])
-        if r["unlabelled"]:
-            return False, False, "thread %d executed unlabelled shared-map lines %s" % (tid, r["unlabelled"][:3])
-    return True, False, "agree"
+def build_mc(sc, warm):
+    """skeleton + model configuration of a scenario from a traced sequential run of the real code"""
+    tr, res, st0 = extract_skeleton(sc, "001", tmpdir=(new_tmpdir() if sc["storage"] == "dir" else None))
+    temp = [i[1] for i in tr.items if i[0] == "register"]
+    temp = temp[0] if temp else None
+    cached = None
+    if warm:
+        cached = list(st0._fixed_plugin_cache[st0._context_hash()].keys())
+    return ModelCfg(sc, tr.items, temp, cached), tr
 
 
 class CtxState:
     def __init__(self):
-        self.confirmed = set()      # finding families whose canonical witness crashed on the real code this run
-        self.instances = {"temp_plugin": 0, "cache_fill": 0}
         self.nontriv = set()
         self.dist = {}
 
@@ -592,32 +590,29 @@ class CtxState:
         self.dist[k] = self.dist.get(k, 0) + n
 
 
-def judge(ctx, S, unit, sc, warm, ncalls, segs, mc, mres, rres):
-    """evaluate correspondence and the property predicate for one interleaved execution"""
-    case = {"scenario": {"graph": sc["graph"], "targets": list(sc["targets"]), "storage": sc["storage"]},
+def case_of(sc, warm, ncalls, segs):
+    return {"scenario": {"graph": sc["graph"], "targets": list(sc["targets"]), "storage": sc["storage"]},
             "cache": "warm" if warm else "cold", "threads_ncalls": list(ncalls), "segs": [list(x) for x in segs]}
-    agree, hazard, txt = compare(mres, rres)
-    S.bump("hazard_not_compared" if hazard else ("agree" if agree else "disagree"))
+
+
+def judge_real(ctx, S, unit, sc, warm, ncalls, segs, rres):
+    """the property predicate on one interleaved execution of the real code: nobody fails, rows equal the
+    sequential call.  Returns True when it fails."""
     failing = False
+    case = case_of(sc, warm, ncalls, segs)
     for tid, r in enumerate(rres):
-        if r["status"][0] == "C" or r["status"][0] == "X":
-            fam = family_of(sc, warm, mc, r)
+        if r["status"][0] != "D":
+            failing = True
             S.bump("real_crash")
-            if fam and fam in S.confirmed:
-                S.instances[fam] += 1
-            else:
-                failing = True
-                ctx.violation("ctx_race", "two or more threads calling get_array on one context: worker %d fails with %s "
-                              "under the line-level interleaving %s (sequentially all calls succeed)"
-                              % (tid, r["msg"], segs), {"input": case, "thread": tid, "error": r["msg"]})
+            ctx.violation(unit, "threads calling get_array on one context: worker %d fails with %s under the "
+                          "line-level interleaving %s (thread, labelled lines), then every thread to its end; "
+                          "sequentially all calls succeed" % (tid, r["msg"], segs),
+                          {"input": case, "thread": tid, "error": r["msg"]})
         elif r["data_ok"] is False:
             failing = True
-            ctx.violation("ctx_race", "worker %d returned rows that differ from the sequential single-run call under the "
+            ctx.violation(unit, "worker %d returned rows that differ from the sequential single-run call under the "
                           "line-level interleaving %s" % (tid, segs), {"input": case, "thread": tid})
-    if not agree and not failing:
-        ctx.violation("ctx_race", "model and real code disagree under an interleaving (%s)" % txt,
-                      {"input": "corr:C15/ctx_race/%s" % unit, "case": case, "detail": txt}, no_failing_input=True)
-    return agree
+    return failing
 
 
 # ------------------------------------------------------------------------------------------------
@@ -642,21 +637,20 @@ def scenarios(ctx):
 
 
 def unit_sequential(ctx, S):
-    """the model reproduces the label trace of a sequential call (cold and warm), the skeleton does not depend on
-    the cache, and warm single-target calls are read-only (premise of ctx_race_free_partial)"""
+    """the model reproduces the label trace of a sequential call (cold, then warm on the same context), the
+    skeleton does not depend on the cache, and the skeleton satisfies the hypothesis of ctx_race_free"""
     from harness.props.c15 import quiet
     n = 0
-    for sc, _ in scenarios(ctx):
-        if _:
+    for sc, w in scenarios(ctx):
+        if w:
             continue
         tmpd = new_tmpdir() if sc["storage"] == "dir" else None
         tr, res, st = extract_skeleton(sc, "001", tmpdir=tmpd)
         temp = [i[1] for i in tr.items if i[0] == "register"]
         temp = temp[0] if temp else None
         mc = ModelCfg(sc, tr.items, temp, None)
-        mres, _got = run_model(mc, [1], [])
-        ok = mres[0][0] == ("D",) and mres[0][1] == tr.labels and not tr.unlabelled and same_array(res, oracle(sc, "001"))
-        # warm: second call on the same context
+        m1 = run_model(mc, [1], 0, [])
+        ok = (m1["threads"][0]["status"] == ("D",) and m1["threads"][0]["trace"] == tr.labels and not tr.unlabelled)
         tr2 = SkeletonTracer()
         with quiet():
             sys.settrace(tr2.glob)
@@ -664,11 +658,14 @@ def unit_sequential(ctx, S):
                 res2 = st.get_array("002", targets_arg(sc))
             finally:
                 sys.settrace(None)
+        tr2.finish()
         cached = list(st._fixed_plugin_cache[st._context_hash()].keys())
+        inv = {v: k for k, v in mc.names.items()}
+        cache_ok = m1["cache"] is not None and [inv.get(x) for x in m1["cache"]] == cached
         mc2 = ModelCfg(sc, tr2.items, temp, cached)
-        mres2, _ = run_model(mc2, [1], [])
-        ok2 = (mres2[0][0] == ("D",) and mres2[0][1] == tr2.labels and not tr2.unlabelled and tr2.items == tr.items
-               and same_array(res2, oracle(sc, "002")))
+        m2 = run_model(mc2, [1], 0, [])
+        ok2 = (m2["threads"][0]["status"] == ("D",) and m2["threads"][0]["trace"] == tr2.labels and not tr2.unlabelled
+               and tr2.items == tr.items)
         n += 2
         S.bump("sequential_cold")
         S.bump("sequential_warm")
@@ -680,130 +677,189 @@ def unit_sequential(ctx, S):
                           % ("first" if not d1 else "second (warm plugin cache)", sc),
                           {"input": {"scenario": {"graph": sc["graph"], "targets": list(sc["targets"]),
                                                   "storage": sc["storage"]}, "runs": ["001", "002"]}})
-        elif not (ok and ok2):
+        elif not (ok and ok2 and cache_ok):
+            def fd(a, b):
+                d = next((i for i, (x, y) in enumerate(zip(a, b)) if x != y), min(len(a), len(b)))
+                return "step %d model %s real %s" % (d, a[max(0, d - 3):d + 3], b[max(0, d - 3):d + 3])
             ctx.violation("ctx_race", "the model does not reproduce the statement trace of a sequential get_array call "
-                          "(scenario %s; cold ok=%s warm ok=%s; unlabelled shared-map lines: %s)"
-                          % (sc, ok, ok2, (tr.unlabelled + tr2.unlabelled)[:4]),
+                          "(scenario %s; cold ok=%s [%s] warm ok=%s [%s] cache ok=%s; unlabelled shared-map lines: %s)"
+                          % (sc, ok, fd(m1["threads"][0]["trace"], tr.labels), ok2,
+                             fd(m2["threads"][0]["trace"], tr2.labels), cache_ok, (tr.unlabelled + tr2.unlabelled)[:4]),
                           {"input": "corr:C15/ctx_race/sequential", "case": {"scenario": sc}}, no_failing_input=True)
-        if len(sc["targets"]) == 1:
-            w = sorted(set(tr2.labels) & il.WRITE_LABELS)
-            S.bump("partial_premise_checked")
-            if w:
-                ctx.violation("ctx_race", "a single-target call on a warm plugin cache executes writing statements %s: the "
-                              "hypothesis of ctx_race_free_partial no longer holds for the real code" % w,
-                              {"input": "theorem:C15_ctx_race_free_partial/premise", "case": {"scenario": sc}},
-                              no_failing_input=True)
+        S.bump("theorem_premise_checked")
+        if not (all(m1["wf"]) and all(m2["wf"]) and all(m1["gotok"]) and all(m2["gotok"])):
+            ctx.violation("ctx_race", "the call skeleton extracted from the real code does not satisfy the hypothesis "
+                          "wf_items of ctx_race_free (scenario %s: wf %s/%s, plugins as predicted %s/%s)"
+                          % (sc, m1["wf"], m2["wf"], m1["gotok"], m2["gotok"]),
+                          {"input": "theorem:C15_ctx_race_free/premise", "case": {"scenario": sc, "items": tr.items}},
+                          no_failing_input=True)
     ctx.count("ctx_race/sequential", n, 0)
 
 
-def unit_witnesses(ctx, S):
-    """replay the refuting interleavings of Proof/CtxRaceWitnessProof.v on the model and on the real code"""
-    eqs = []
-    for name, (sc, warm, ncalls, segs, exp) in WITNESSES.items():
-        mc, tr = build_mc(sc, warm)
-        cfg, sh, progs = coq_terms(mc, ncalls)
-        eqs.append("(%s_cfg, %s_sh, %s_progs) = (%s, %s, %s)" % (name, name, name, cfg, sh, progs))
-        mres, _ = run_model(mc, ncalls, segs)
-        rres, _st = run_real(sc, warm, ncalls, segs)
-        tid, kind, lab = exp
-        m_ok = mres[tid][0] == ("C", kind, lab)
-        r = rres[tid]
-        r_ok = r["status"] == ("C", kind) and r["trace"] and r["trace"][-1] == lab
-        agree, hazard, txt = compare(mres, rres)
-        S.bump("witness_replays")
+def unit_pinned_witnesses(ctx, S):
+    """the interleavings that crashed the code before d202a14 must not crash it any more"""
+    for name, (sc, warm, ncalls, segs, exp) in PINNED_WITNESSES.items():
+        rres, info = run_real(sc, warm, ncalls, segs)
+        S.bump("pinned_witness_replays")
         S.nontriv.add(lib.canon(["witness", name]))
         fam = "temp_plugin" if name.startswith("wa") else "cache_fill"
-        if r_ok and agree:
-            if FINDING_WITNESS[fam] == name:
-                S.confirmed.add(fam)
-                ctx.violation("ctx_race/" + fam, FINDING_WHAT[fam] + "; worker %d: %s" % (tid, r["msg"]),
-                              {"input": witness_input(name), "error": r["msg"], "model": list(mres[tid][0])})
-            else:
-                S.instances[fam] += 1
-        elif not m_ok:
-            ctx.violation("ctx_race", "the extracted model no longer refutes race freedom on witness %s (model %s)"
-                          % (name, mres[tid][0]), {"input": "corr:C15/ctx_race/witness-%s" % name,
-                                                   "case": witness_input(name)}, no_failing_input=True)
-        else:
-            # the model (and the Coq theorem) says crash, the real code does not: the code changed
-            bad = [x for x in rres if x["status"][0] != "D" or x["data_ok"] is False]
-            if bad:
-                ctx.violation("ctx_race", "witness %s: real code fails differently from the model: %s" % (name, bad[0]["msg"]),
-                              {"input": witness_input(name), "error": bad[0]["msg"]})
-            else:
-                ctx.violation("ctx_race", "witness %s of ctx_race_refuted no longer crashes the real code (%s): the model "
-                              "of the Context code is out of date" % (name, txt),
-                              {"input": "corr:C15/ctx_race/witness-%s" % name, "case": witness_input(name)},
-                              no_failing_input=True)
-    n, fails = lib.coq_crosscheck("C15W", "From SV Require Import Base.Prelude Model.CtxRace Model.CtxRaceWitness.", eqs)
-    ctx.coverage.setdefault("kernel_crosscheck", {})["witness_configs"] = {"equations": n, "failed_files": len(fails)}
-    if fails:
-        ctx.violation("ctx_race", "the configurations in coq/Model/CtxRaceWitness.v differ from the ones extracted from the "
-                      "real code now: " + fails[0][-300:], {"input": "corr:C15/ctx_race/witness-config", "log": fails[0]},
-                      no_failing_input=True)
-    ctx.count("ctx_race/witness", len(WITNESSES), 0)
+        bad = [(tid, r) for tid, r in enumerate(rres) if r["status"][0] != "D" or r["data_ok"] is False]
+        if bad:
+            tid, r = bad[0]
+            ctx.violation("ctx_race/" + fam, FINDING_WHAT[fam] + "; two worker threads (2 runs) interleaved as in the "
+                          "input (thread, labelled statements; then every thread to its end): worker %d: %s"
+                          % (tid, r["msg"] or "rows differ from the sequential call"),
+                          {"input": witness_input(name), "error": r["msg"], "witness": name})
+    ctx.count("ctx_race/pinned_witness", len(PINNED_WITNESSES), 0)
 
 
-def random_segs(rng, nthreads, total):
-    k = rng.randint(1, 7)
-    segs = []
-    for _ in range(k):
-        segs.append((rng.randrange(nthreads), rng.choice([1, 2, 3, 5, 8, 13, 21, 34, 55, 89, 144])))
-    return segs
+def random_coarse(rng, nthreads):
+    k = rng.randint(1, 9)
+    return [(rng.randrange(nthreads), rng.choice([1, 1, 2, 3, 4, 6, 9, 14])) for _ in range(k)]
+
+
+def random_fine(rng, nthreads):
+    k = rng.randint(1, 9)
+    return [(rng.randrange(nthreads), rng.choice([1, 2, 3, 5, 8, 13, 21, 34, 55, 89, 144])) for _ in range(k)]
 
 
 def unit_interleave(ctx, S):
     rng = ctx.rng
     big = ctx.thorough or bool(ctx.drift)
     n_eval = 0
-    per_class_cap = 40 if big else 5
-    n_random = 25 if big else 3
+    n_coarse = 30 if big else 5
+    n_fine = 30 if big else 5
     for sc, warm in scenarios(ctx):
         t_sc = lib.now()
         mc, tr = build_mc(sc, warm)
-        steps = len(tr.labels)
-        stride = 1 if big else max(1, steps // 60)
-        out = lib.run_model("C15", ["ctxsearch " + mc.encode([1, 1], [stride, stride, 2])])[0]
-        toks = [int(x) for x in out.split()[2:]]
-        classes = [toks[i:i + 6] for i in range(0, len(toks), 6)]
-        S.bump("model_crash_classes", len(classes))
-        if len(sc["targets"]) == 1 and warm and classes:
-            ctx.violation("ctx_race", "the model finds a crashing interleaving for a single target on a warm cache: %s"
-                          % classes[0], {"input": "theorem:C15_ctx_race_free_partial", "case": {"scenario": sc}},
-                          no_failing_input=True)
-        rng.shuffle(classes)
         todo = []
-        for tid, k, lb, a, b, c in classes[:per_class_cap]:
-            if k == K_HAZARD:
-                continue
-            segs = [(0, a), (1, b), (0, 100000)] if c < 0 else [(0, a), (1, b), (0, c), (1, 100000), (0, 100000)]
-            todo.append(([1, 1], segs))
-        for _ in range(n_random):
+        slow = sc["storage"] == "dir" and not big      # saving to disk dominates: fewer replays in the quick tier
+        for _ in range(2 if slow else n_coarse):
             nth = rng.choice([2, 2, 3])
             ncalls = [rng.choice([1, 1, 2]) for _ in range(nth)]
-            todo.append((ncalls, random_segs(rng, nth, steps)))
-        mlines = []
-        for ncalls, segs in todo:
-            extra = [len(segs)]
-            for t, n in segs:
-                extra += [t, n]
-            mlines.append("ctx " + mc.encode(ncalls, extra))
-        mouts = lib.run_model("C15", mlines)
+            todo.append((ncalls, random_coarse(rng, nth)))
+        mouts = lib.run_model("C15", [model_line(mc, ncalls, 0, segs) for ncalls, segs in todo])
         for (ncalls, segs), mo in zip(todo, mouts):
-            mres, _ = parse_model_out(mo)
-            rres, _st = run_real(sc, warm, ncalls, segs)
-            judge(ctx, S, "interleave", sc, warm, ncalls, segs, mc, mres, rres)
+            mres = parse_model_out(mo)
+            lsegs = label_budgets(mres, segs)
+            rres, info = run_real(sc, warm, ncalls, lsegs)
+            failing = judge_real(ctx, S, "ctx_race", sc, warm, ncalls, lsegs, rres)
+            agree, txt = compare(mres, rres, info, mc)
+            S.bump("coarse_agree" if agree else "coarse_disagree")
+            if not agree and not failing:
+                ctx.violation("ctx_race", "model and real code disagree under an interleaving of whole sections (%s)" % txt,
+                              {"input": "corr:C15/ctx_race/coarse", "case": case_of(sc, warm, ncalls, lsegs),
+                               "model_schedule": segs, "detail": txt}, no_failing_input=True)
+            if not (all(mres["wf"]) and all(mres["gotok"]) and all(t["status"] == ("D",) for t in mres["threads"])):
+                ctx.violation("ctx_race", "the extracted model contradicts ctx_race_free on %s: wf %s statuses %s"
+                              % (case_of(sc, warm, ncalls, segs), mres["wf"], [t["status"] for t in mres["threads"]]),
+                              {"input": "theorem:C15_ctx_race_free", "case": case_of(sc, warm, ncalls, segs)},
+                              no_failing_input=True)
             n_eval += 1
-            S.nontriv.add(lib.canon([sc, warm, ncalls, segs]))
-        sys.stderr.write("[C15] interleave %s %s %s: %d classes, %d replays, %.1fs\n"
-                         % (sc["graph"], ",".join(sc["targets"]), "warm" if warm else "cold", len(classes), len(todo),
-                            lib.now() - t_sc))
+            S.nontriv.add(lib.canon([sc, warm, ncalls, segs, "coarse"]))
+        # label-level schedules: threads are pre-empted inside sections as well; the model is run with the
+        # order in which the threads entered their locked sections on the real code
+        fine = []
+        for _ in range(2 if slow else n_fine):
+            nth = rng.choice([2, 2, 3])
+            ncalls = [rng.choice([1, 1, 2]) for _ in range(nth)]
+            fine.append((ncalls, random_fine(rng, nth)))
+        reals = []
+        for ncalls, segs in fine:
+            rres, info = run_real(sc, warm, ncalls, segs)
+            reals.append((rres, info))
+        mouts = lib.run_model("C15", [model_line(mc, ncalls, 1, info["lock_order"])
+                                      for (ncalls, segs), (rres, info) in zip(fine, reals)])
+        for (ncalls, segs), (rres, info), mo in zip(fine, reals, mouts):
+            mres = parse_model_out(mo)
+            failing = judge_real(ctx, S, "ctx_race", sc, warm, ncalls, segs, rres)
+            agree, txt = compare(mres, rres, info, mc)
+            S.bump("fine_agree" if agree else "fine_disagree")
+            if not agree and not failing:
+                ctx.violation("ctx_race", "model and real code disagree under a label-level interleaving (%s)" % txt,
+                              {"input": "corr:C15/ctx_race/fine", "case": case_of(sc, warm, ncalls, segs),
+                               "lock_order": info["lock_order"], "detail": txt}, no_failing_input=True)
+            n_eval += 1
+            S.nontriv.add(lib.canon([sc, warm, ncalls, segs, "fine"]))
+        sys.stderr.write("[C15] interleave %s %s %s %s: %d replays, %.1fs\n"
+                         % (sc["graph"], ",".join(sc["targets"]), sc["storage"], "warm" if warm else "cold",
+                            len(todo) + len(fine), lib.now() - t_sc))
     ctx.count("ctx_race/interleave", n_eval, 0)
 
 
+# ------------------------------------------------------------------------------------------------
+# kernel cross-check of the extraction (a sample of model runs re-evaluated inside Coq)
+# ------------------------------------------------------------------------------------------------
+
+def _zl(xs):
+    return "[" + "; ".join("(%d)" % int(x) for x in xs) + "]"
+
+
+def coq_item(mc, it, cls):
+    k = it[0]
+    if k == "getplugins":
+        return "IGetPlugins %s" % _zl(mc.nid(x) for x in it[1])
+    if k == "keyfor":
+        return "IKeyFor %d" % mc.nid(it[1])
+    if k == "register":
+        return "IRegister %d %d" % (mc.nid(it[1]), cls)
+    if k == "cleanup":
+        return "ICleanup"
+    if k == "regread":
+        return "IRegRead %d %d" % (it[1], mc.nid(it[2]))
+    if k == "estimate":
+        return "IEstimate %s %d%%nat" % (_zl(mc.nid(x) for x in it[1]), it[2])
+    if k == "copyreg":
+        return "ICopyReg"
+    if k == "endcall":
+        return "IEndCall"
+    raise ValueError(it)
+
+
+def coq_terms(mc, threads_ncalls):
+    deps = "[" + "; ".join("(%d, %s)" % (mc.nid(n), _zl(mc.nid(x) for x in d)) for n, d in mc.deps.items()) + "]"
+    so = "[" + "; ".join("(%s, %s)" % (_zl(mc.nid(x) for x in k), _zl(mc.nid(x) for x in v))
+                         for k, v in mc.so.items()) + "]"
+    cfg = "(mkcfgm %s %s %d%%nat)" % (deps, so, MODEL_FUEL)
+    g = GRAPHS[mc.sc["graph"]]
+    reg = "[" + "; ".join("(%d, %d)" % (mc.nid(dt), 100 + mc.nid(dt)) for dt, _ in g) + "]"
+    cache = "None" if mc.warm is None else "(Some %s)" % _zl(mc.nid(n) for n in mc.warm)
+    sh = "(mkshared %s %s)" % (reg, cache)
+    progs = []
+    for tid, ncalls in enumerate(threads_ncalls):
+        its = []
+        for call in range(ncalls):
+            its += [coq_item(mc, it, 5000 + 10 * tid + call) for it in mc.items]
+        progs.append("[" + "; ".join(its) + "]")
+    return cfg, sh, "[" + "; ".join(progs) + "]"
+
+
+def unit_kernel_crosscheck(ctx, S):
+    rng = ctx.rng
+    eqs = []
+    for sc, warm in [(dict(graph="flat", targets=("src", "aa"), storage="none"), False),
+                     (dict(graph="chain", targets=("bb",), storage="none"), False),
+                     (dict(graph="two", targets=("aa", "bb"), storage="none"), True)]:
+        mc, tr = build_mc(sc, warm)
+        for _ in range(2):
+            ncalls = [1, rng.choice([1, 2])]
+            segs = random_coarse(rng, 2)
+            mres = run_model(mc, ncalls, 0, segs)
+            cfg, sh, progs = coq_terms(mc, ncalls)
+            sched = "(rle [" + "; ".join("(%d%%nat, %d%%nat)" % s for s in segs) + "])"
+            exp = "[" + "; ".join(
+                "(%s, %s)" % (_zl({"D": [1], "R": [0]}.get(t["status"][0], [2] + list(t["status"][1:]))), _zl(t["trace"]))
+                for t in mres["threads"]) + "]"
+            eqs.append("c15_ctx_str %s %s %s %s 200%%nat = %s" % (cfg, sh, progs, sched, exp))
+    n, fails = lib.coq_crosscheck("C15X", "From SV Require Import Base.Prelude Model.CtxRace Model.C15Run.", eqs)
+    ctx.coverage.setdefault("kernel_crosscheck", {})["ctx_model"] = {"equations": n, "failed_files": len(fails)}
+    if fails:
+        ctx.violation("ctx_race", "extracted Context model and Coq vm_compute disagree: " + fails[0][-400:],
+                      {"input": "corr:C15/ctx_race/extraction-crosscheck", "log": fails[0]}, no_failing_input=True)
+
 
 # ------------------------------------------------------------------------------------------------
-# real multi-run calls under OS schedules amplified by a 1 microsecond switch interval (confirmation only)
+# real multi-run calls under OS schedules amplified by a 1 microsecond switch interval
 # ------------------------------------------------------------------------------------------------
 
 class FailingRun(Exception):
@@ -836,95 +892,92 @@ def expected_multi(sc, runs, fail_runs):
     return np.concatenate(parts) if parts else None
 
 
-def unit_os_schedule(ctx, S):
+def os_case(rng, trial):
+    g, targets = rng.choice([("flat", ("aa",)), ("chain", ("bb",)), ("three", ("cc",)), ("two", ("aa", "bb")),
+                             ("three", ("aa", "bb", "cc")), ("flat", ("src", "aa"))])
+    storage = rng.choice(["none", "none", "dir", "meta"])
+    nruns = rng.randint(2, 8)
+    runs = ["%03d" % x for x in rng.sample(range(100, 400), nruns)]
+    fail = sorted(rng.sample(runs, 1)) if rng.random() < 0.3 else []
+    ignore = bool(fail) and rng.random() < 0.6
+    api = rng.choice(["get_array", "get_array", "get_df", "make"]) if storage == "dir" else \
+        rng.choice(["get_array", "get_array", "get_df"])
+    return {"scenario": {"graph": g, "targets": list(targets), "storage": storage}, "runs": runs,
+            "workers": rng.randint(1, 8), "fail": fail, "ignore_errors": ignore, "api": api,
+            "cache": ["warm", "cold"][trial % 2]}
+
+
+def os_eval(case):
+    """one real multi-run call under the current switch interval; returns None or the reason it is wrong"""
     from harness.props.c15 import quiet
+    scd = case["scenario"]
+    sc = dict(graph=scd["graph"], targets=tuple(scd["targets"]), storage=scd["storage"])
+    runs, fail, w, api = case["runs"], set(case["fail"]), case["workers"], case["api"]
+    tmpd = new_tmpdir() if sc["storage"] == "dir" else None
+    exc = got = None
+    with quiet():
+        st = make_context_os(sc, tmpd, fail)
+        if case["cache"] == "warm":
+            st.get_array("001", targets_arg(sc))
+        try:
+            kw = dict(max_workers=w, multi_run_progress_bar=False)
+            if case["ignore_errors"]:
+                kw["ignore_errors"] = True
+            if api == "make":
+                st.make(runs, targets_arg(sc), **kw)
+                ok_runs = [r for r in sorted(runs) if r not in fail]
+                got = np.concatenate([strax.merge_arrs([np.array([r] * len(oracle(sc, r)),
+                                                                 dtype=[("run_id", np.array(runs).dtype)]),
+                                                        st.get_array(r, targets_arg(sc))]) for r in ok_runs]) \
+                    if ok_runs else None
+            elif api == "get_df":
+                got = st.get_df(runs, targets_arg(sc), **kw)
+            else:
+                got = st.get_array(runs, targets_arg(sc), **kw)
+        except BaseException as e:  # noqa
+            exc = e
+    expect_raise = bool(fail) and not case["ignore_errors"]
+    exp = expected_multi(sc, runs, fail)
+    if exc is not None:
+        if expect_raise and (isinstance(exc, FailingRun) or "Failed to process" in str(exc)):
+            return None, None
+        return "raised %r" % (exc,), exc
+    if expect_raise:
+        return "a run failed and errors are not ignored, but the call returned normally", None
+    if api == "get_df":
+        ok = exp is not None and len(got) == len(exp) and all(list(got[c]) == list(exp[c]) for c in exp.dtype.names)
+    else:
+        ok = exp is not None and got is not None and same_array(got, exp)
+    return (None if ok else "result differs from the sequential single-run calls concatenated in run-id order"), None
+
+
+def unit_os_schedule(ctx, S):
     rng = ctx.rng
     big = ctx.thorough or bool(ctx.drift)
     ntr = 260 if big else 36
     old = sys.getswitchinterval()
-    dist = {"warm_single_ok": 0, "cold_or_multi_ok": 0, "known_race_crash": 0, "failing_run_cases": 0}
+    dist = {"ok": 0, "failing_run_cases": 0, "race_like_exceptions": 0}
     n = 0
     try:
         sys.setswitchinterval(1e-6)
         for trial in range(ntr):
-            g, targets = rng.choice([("flat", ("aa",)), ("chain", ("bb",)), ("three", ("cc",)), ("two", ("aa", "bb")),
-                                     ("three", ("aa", "bb", "cc"))])
-            mode = trial % 3          # 0: warm single target (strict), 1: cold single, 2: several targets
-            if mode == 0 and len(targets) > 1:
-                targets = targets[-1:]
-            if mode == 1 and len(targets) > 1:
-                targets = targets[:1]
-            if mode == 2 and len(targets) == 1:
-                g, targets = "two", ("aa", "bb")
-            storage = rng.choice(["none", "none", "dir", "meta"])
-            sc = dict(graph=g, targets=targets, storage=storage)
-            nruns = rng.randint(2, 8)
-            w = rng.randint(1, 8)
-            runs = ["%03d" % x for x in rng.sample(range(100, 400), nruns)]
-            fail = set(rng.sample(runs, 1)) if rng.random() < 0.3 else set()
-            ignore = bool(fail) and rng.random() < 0.6
-            api = rng.choice(["get_array", "get_array", "get_df", "make"]) if storage == "dir" else \
-                rng.choice(["get_array", "get_array", "get_df"])
-            tmpd = new_tmpdir() if storage == "dir" else None
-            case = {"scenario": {"graph": g, "targets": list(targets), "storage": storage}, "runs": runs, "workers": w,
-                    "fail": sorted(fail), "ignore_errors": ignore, "api": api, "mode": ["warm", "cold", "multi"][mode]}
-            with quiet():
-                st = make_context_os(sc, tmpd, fail)
-                if mode == 0:
-                    st.get_array("001", targets_arg(sc))
-                exc = None
-                got = None
-                try:
-                    kw = dict(max_workers=w, multi_run_progress_bar=False)
-                    if ignore:
-                        kw["ignore_errors"] = True
-                    if api == "make":
-                        st.make(runs, targets_arg(sc), **kw)
-                        got = np.concatenate([strax.merge_arrs([np.array([r] * len(oracle(sc, r)),
-                                                                dtype=[("run_id", np.array(runs).dtype)]),
-                                                                st.get_array(r, targets_arg(sc))])
-                                              for r in sorted(runs) if r not in fail]) if len(fail) < len(runs) else None
-                    elif api == "get_df":
-                        got = st.get_df(runs, targets_arg(sc), **kw)
-                    else:
-                        got = st.get_array(runs, targets_arg(sc), **kw)
-                except BaseException as e:  # noqa
-                    exc = e
+            case = os_case(rng, trial)
+            reason, exc = os_eval(case)
             n += 1
-            dist["failing_run_cases"] += bool(fail)
+            dist["failing_run_cases"] += bool(case["fail"])
             S.nontriv.add(lib.canon(["os", case]))
-            expect_raise = bool(fail) and not ignore
-            exp = expected_multi(sc, runs, fail)
-            reason = None
-            if exc is not None:
-                if expect_raise and isinstance(exc, FailingRun):
-                    pass
-                elif isinstance(exc, (ValueError,)) and expect_raise and "Failed to process" in str(exc):
-                    pass
-                else:
-                    st_c = classify_exc(exc)
-                    if mode != 0 and st_c[0] == "C":
-                        dist["known_race_crash"] += 1      # D7: confirmation only, never an alarm
-                        continue
-                    reason = "raised %r" % (exc,)
-            elif expect_raise:
-                reason = "a run failed and errors are not ignored, but the call returned normally"
-            else:
-                if api == "get_df":
-                    ok = exp is not None and len(got) == len(exp) and all(
-                        list(got[c]) == list(exp[c]) for c in exp.dtype.names)
-                else:
-                    ok = exp is not None and got is not None and same_array(got, exp)
-                if not ok:
-                    reason = "result differs from the sequential single-run calls concatenated in run-id order"
             if reason is None:
-                dist["warm_single_ok" if mode == 0 else "cold_or_multi_ok"] += 1
-            elif mode == 0 or not isinstance(exc, (RuntimeError, KeyError)):
-                # deterministic expectation (warm single target, or wrong data / lost run): alarm with the input
-                ctx.violation("multi_run_context", "Context.%s over %d runs with %d workers (%s): %s"
-                              % (api, nruns, w, case["mode"], reason), {"input": case, "reason": reason})
-            else:
-                dist["known_race_crash"] += 1
+                dist["ok"] += 1
+                continue
+            if exc is not None and classify_exc(exc)[0] == "C":
+                # a data race under an OS schedule is not replayable: it is counted, and confirmed or not by the
+                # controlled interleavings (which alarm deterministically)
+                dist["race_like_exceptions"] += 1
+                ctx.notes.append("OS-schedule trial raised %r on %s" % (exc, case))
+                continue
+            ctx.violation("multi_run_context", "Context.%s over %d runs with %d workers (%s cache): %s"
+                          % (case["api"], len(case["runs"]), case["workers"], case["cache"], reason),
+                          {"input": dict(case, mode="os"), "reason": reason})
     finally:
         sys.setswitchinterval(old)
     ctx.count("context_multi_run/os_schedule", n, 0, dist)
@@ -934,28 +987,28 @@ def run(ctx):
     S = CtxState()
     ctx.coverage["rule"] += (
         " | ctx_race: scenarios = plugin graphs (flat/two/chain/three) x single or several same-kind targets x storage "
-        "none/meta/dir x cold/warm plugin cache; per scenario the crash classes found by the extracted model "
-        "(2 threads, <=3 context switches, exhaustive in the thorough tier) and random schedules (2-3 threads, 1-2 "
-        "calls each) are replayed on the real code with the line-level interleaver; non-trivial = an interleaved "
-        "execution with at least one context switch inside the plugin-resolution code; distinct by canonical JSON "
-        "of (scenario, cache, calls per thread, schedule).")
+        "none/meta/dir x cold/warm plugin cache; per scenario random schedules of whole sections (model schedule "
+        "translated to labelled lines) and random label-level schedules (threads pre-empted inside locked sections; "
+        "model run with the observed lock order) for 2-3 threads x 1-2 calls are replayed on the real code with the "
+        "line-level interleaver; the interleavings that crashed the code before d202a14 are replayed as well; "
+        "non-trivial = an interleaved execution of at least two threads; distinct by canonical JSON of (scenario, "
+        "cache, calls per thread, schedule).")
     try:
         unit_sequential(ctx, S)
-        unit_witnesses(ctx, S)
+        unit_pinned_witnesses(ctx, S)
         unit_interleave(ctx, S)
+        unit_kernel_crosscheck(ctx, S)
         unit_os_schedule(ctx, S)
     finally:
         cleanup_tmp()
-    S.dist["instances_of_known_temp_plugin_race"] = S.instances["temp_plugin"]
-    S.dist["instances_of_known_cache_fill_race"] = S.instances["cache_fill"]
     ctx.count("ctx_race", 0, len(S.nontriv), S.dist)
-    ctx.assumptions.append("CPython switches threads between bytecodes; the model and the interleaver switch only "
-                           "between labelled source lines (coarser: every replayed interleaving is a real one)")
-    ctx.assumptions.append("dict iterators fail exactly when the dict size changed since the iterator was created "
-                           "(CPython dictiter); same-size structural changes are flagged as hazards and not compared")
-    ctx.assumptions.append("the context hash is constant during a multi-run call (config and non-temporary registry "
-                           "entries unchanged)")
-    ctx.assumptions.append("PYTHONHASHSEED=0 (set by bin/check): list(set(targets)) order is part of the witness configs")
+    ctx.assumptions.append("`with _PLUGIN_RESOLUTION_LOCK` (threading.RLock) makes _get_plugins / key_for atomic with "
+                           "respect to each other; the harness checks at every labelled line of the real code that cache "
+                           "statements run with the lock held and that registry writes hit a private copy")
+    ctx.assumptions.append("CPython switches threads between bytecodes; the interleaver switches only between labelled "
+                           "source lines (every replayed interleaving is a real one)")
+    ctx.assumptions.append("the context hash is constant during a multi-run call (config and registry unchanged)")
+    ctx.assumptions.append("PYTHONHASHSEED=0 (set by bin/check): list(set(targets)) order is part of the configurations")
 
 
 def replay(ctx, obj):
@@ -966,18 +1019,40 @@ def replay(ctx, obj):
         sc["targets"] = tuple(sc["targets"])
         warm = inp["cache"] == "warm"
         segs = [tuple(x) for x in inp["segs"]]
-        rres, _ = run_real(sc, warm, inp["threads_ncalls"], segs)
+        rres, info = run_real(sc, warm, inp["threads_ncalls"], segs)
         bad = 0
         for tid, x in enumerate(rres):
-            print("worker", tid, x["status"], x["msg"], "rows equal sequential:", x["data_ok"], "steps:", len(x["trace"]))
+            print("worker", tid, x["status"], x["msg"], "rows equal sequential:", x["data_ok"], "labelled lines:", len(x["trace"]))
             if x["status"][0] != "D" or x["data_ok"] is False:
                 bad = 1
         cleanup_tmp()
         return bad
+    if isinstance(inp, dict) and inp.get("mode") == "os":
+        old = sys.getswitchinterval()
+        bad = 0
+        try:
+            sys.setswitchinterval(1e-6)
+            for _ in range(20):
+                reason, exc = os_eval(inp)
+                if reason:
+                    print("fails:", reason)
+                    bad = 1
+                    break
+        finally:
+            sys.setswitchinterval(old)
+            cleanup_tmp()
+        print("20 trials:", "property fails" if bad else "holds")
+        return bad
+    if isinstance(inp, dict) and "runs" in inp and "scenario" in inp:
+        from harness.props.c15 import quiet
+        sc = dict(inp["scenario"])
+        sc["targets"] = tuple(sc["targets"])
+        with quiet():
+            st = make_context(sc, new_tmpdir() if sc["storage"] == "dir" else None)
+            res = [st.get_array(r, targets_arg(sc)) for r in inp["runs"]]
+        bad = [r for r, a in zip(inp["runs"], res) if not same_array(a, oracle(sc, r))]
+        print("runs whose rows differ from a fresh context:", bad)
+        cleanup_tmp()
+        return 1 if bad else 0
     print("nothing to replay for", inp)
     return 0
-
-
-if __name__ == "__main__":
-    if sys.argv[1:] == ["gen-witness"]:
-        print(gen_witness_file())
